@@ -45,13 +45,13 @@ class ModelsOps:
                 if nm in ("Mapping", "MutableMapping", "Dict"):
                     return isinstance(v, DictV)
                 if nm in ("Sized", "Sequence", "Collection"):
-                    if isinstance(v, ListV) and v.lazy:
+                    if isinstance(v, GenV) or (isinstance(v, ListV) and v.lazy):
                         return False
                     if isinstance(v, ObjV) and v.ci is not None:
                         return self.prog.lookup(v.ci, "__len__") is not None
                     return isinstance(v, (TupleV, ListV, TermV, DictV))
                 if nm == "Iterable":
-                    return isinstance(v, (TupleV, ListV, TermV, DictV)) or \
+                    return isinstance(v, (TupleV, ListV, TermV, DictV, GenV)) or \
                         (isinstance(v, ObjV) and v.ci is not None and self.prog.lookup(v.ci, "__iter__") is not None)
             I.unsupported(node, f"isinstance against {spec!r}")
         if not isinstance(spec, TypeV):
@@ -699,6 +699,8 @@ class ModelsOps:
             v = args[0]
             if isinstance(v, TupleV):
                 return self.num_const(len(v.items))
+            if isinstance(v, GenV):
+                I.raise_("TypeError", node)
             if isinstance(v, ListV):
                 if v.lazy:
                     I.raise_("TypeError", node)     # generators have no len()
